@@ -385,7 +385,7 @@ class C07(Check):
             'list orders x every row-count vector over {0,1,2} (thorough {0..3}) x every non-empty stage-one failure set (quick, 4 triples: '
             'sizes 1 and 4 plus two pairs); each case runs in 5 sink modes '
             '(no file, plain, .gz, restored plain, restored .gz); (5) a content subset x 7 result-file names (".gz" nowhere / suffix / '
-            'inside the base name / in a directory name / both / upper case / "gz" without dot) x fresh and restored runs. A case is non-trivial when the normalisation had something to do '
+            'inside the base name / in a directory name / both / upper case / "gz" without dot) x fresh runs, restored runs and runs onto an existing empty file. A case is non-trivial when the normalisation had something to do '
             '(non-string key, absent field, top-level sequence, float needing rounding or int collapse) or >=2 triples were given')
     ASSUMPTIONS = [
         'in-process runs only (processes=1, maxchunksperchild=0); the multi-process path is C01/C08',
@@ -399,6 +399,8 @@ class C07(Check):
         'keys whose str() collide, the reserved names (ids, index, rewards, env_type, family, eval_type) and rows lists consisting only of empty rows are outside the alphabet',
         'rows of triples whose evaluator raised are not constrained; a restored run is compared with the fresh no-file run on content and column sets only',
         'whether a result file is gzip-compressed is not constrained, only that run(file), from_file(file) and the no-file run agree for every file name',
+        'result files that a killed run left torn (cut inside a record, incl. inside the very first one) are C02\'s subject and not enumerated here; '
+        'only complete earlier runs (restored) and an existing 0-byte file are',
         'exceptions: the statement promises a Result, so an exception from Experiment.run / Result.from_file is a violation',
     ]
     TECHNIQUE = ('bounded-exhaustive enumeration of evaluator outputs and params over value/key alphabets x 5 sink modes on the real '
@@ -493,15 +495,15 @@ class C07(Check):
         #     upper case, without dot) x fresh and restored runs, on one-row columns over V, a mixed column, permuted keys and
         #     multi-triple experiments
         names = list(FILES)
-        for v in V: yield dict(self.single([[['x', v]]]), files=names)
-        yield dict(self.single([[['x', 'l12']], [['x', 'i0']]]), files=names)
-        yield dict(self.single([[['x', '#1'], ['reward', '#2']], [['reward', '#3'], ['x', '#4']]]), files=names)
+        for v in V: yield dict(self.single([[['x', v]]]), files=names, empty=True)
+        yield dict(self.single([[['x', 'l12']], [['x', 'i0']]]), files=names, empty=True)
+        yield dict(self.single([[['x', '#1'], ['reward', '#2']], [['reward', '#3'], ['x', '#4']]]), files=names, empty=True)
         for trip, ns, fs in [([[0, 0, 0], [0, 1, 0]], (2, 1), [(0,), (1,), (0, 1)]),
                              ([[0, 0, 0], [0, 1, 0], [1, 0, 0], [1, 1, 0]], (1, 2, 0, 2), [(0,), (3,), (1, 2), (0, 1, 2, 3)]),
                              ([[0, 0, 1], [0, 0, 0], [1, 0, 1], [1, 0, 0]], (2, 0, 1, 1), [(1,), (0, 2), (0, 1, 2, 3)])]:
             for f in fs:
                 yield {'envs': [[['x', 'i1']], [['k1', 'l12']]], 'lrns': [[], [['x', 's_a']]], 'vals': [[], [['k2.5', 'none']]],
-                       'triples': trip, 'rows': self.multi_rows(ns), 'fail1': list(f), 'files': names}
+                       'triples': trip, 'rows': self.multi_rows(ns), 'fail1': list(f), 'files': names, 'empty': True}
         # (3b) two components of one kind with (possibly ragged) one-key params
         kp = [('x', 'x'), ('x', 'k1'), ('k1', 'x'), ('reward', 'k2.5')] if quick else [(a, b) for a in K_ALL for b in K_ALL]
         for comp in ('envs', 'lrns', 'vals'):
@@ -603,7 +605,8 @@ class C07(Check):
             return st[1]
 
         files = list(case.get('files') or STD_FILES)
-        modes = ['none'] + [f'{stage}:{f}' for stage in ('fresh', 'restored') for f in files]
+        stages = ('fresh', 'restored') + (('empty',) if case.get('empty') else ())     # 'empty': the file already exists with 0 bytes
+        modes = ['none'] + [f'{stage}:{f}' for stage in stages for f in files]
         casedir = self._casedir()
         snaps = {}
         for mode in modes:
@@ -624,6 +627,7 @@ class C07(Check):
                     if not os.path.exists(path):
                         note(mode, 'result|no file written by stage one|file', 'the first run left no result file'); continue
                     log = []
+                if stage == 'empty': open(path, 'wb').close()
                 st = self._run(case, path, (), log)
                 r = check(mode, 'Experiment.run(file)', st, completed, log)
                 f = check(mode, 'Result.from_file(file)', self._load(path), completed, log)
@@ -650,13 +654,13 @@ class C07(Check):
                 if key not in base: extra.setdefault(key, []).append((mode, what))
         for key, mw in extra.items():
             ms = [m.split(':') for m, _ in mw]
-            stages = sorted({st for st, _ in ms})
-            fresh_f = {f for st, f in ms if st == 'fresh'}; rest_f = {f for st, f in ms if st == 'restored'}
-            if fresh_f == set(files) == rest_f: where = 'any result file'
-            elif not fresh_f and rest_f == set(files): where = 'restored runs'
+            failing = {m for m, _ in mw}
+            if failing == set(modes[1:]): where = 'any result file'
+            elif failing == {m for m in modes[1:] if m.split(':')[0] in {st for st, _ in ms}}:      # every file name of these kinds of run
+                where = '+'.join({'fresh': 'fresh', 'restored': 'restored', 'empty': 'onto-an-empty-file'}[st] for st in stages if st in {st for st, _ in ms}) + ' runs'
             else:   # the name classes that show it (in FILES order), and the kind of run
-                classes = [FILES[f][1] for f in FILES if f in fresh_f | rest_f]
-                where = 'file names with ' + ' / '.join(classes) + '; ' + '+'.join(stages) + ' runs'
+                classes = [FILES[f][1] for f in FILES if f in {f for _, f in ms}]
+                where = 'file names with ' + ' / '.join(classes) + '; ' + '+'.join(st for st in stages if st in {st for st, _ in ms}) + ' runs'
             acc.violation(f'{key} [only with: {where}]', f'(mode {mw[0][0]}, file {FILES[mw[0][0].split(":")[1]][0]}) {mw[0][1]}')
         # observable outcome signature: verdicts + shape/types of what was read back without a file
         s0 = snaps.get('none')
@@ -665,8 +669,8 @@ class C07(Check):
             cols, rows = s0[0]['interactions']
             shape = (len(rows), tuple(sorted(set(cols) - set(ID_COLS))), tuple(sorted({vclass(r[c]) for r in rows for c in cols if c not in ID_COLS})))
         acc.outcome((tuple(sorted(k for m in found.values() for k in m)), tuple(sig), shape))
-        acc.count('experiment_runs', 1 + 3 * len(files))
-        acc.count('results_compared', 1 + 5 * len(files))
+        acc.count('experiment_runs', 1 + (3 + ('empty' in stages)) * len(files))
+        acc.count('results_compared', 1 + (5 + 2 * ('empty' in stages)) * len(files))
 
 
 CHECK = C07()
